@@ -717,6 +717,25 @@ theorem Loc.evalTerm {r : Nat} (sys : Sys) {rec : Id → Var → Period → HM V
     refine Loc.bind (Loc.rdPop hgid) fun go hgo => ?_
     refine Loc.bind (hrec _ _ _ hgo.1) fun a _ => ?_
     exact Loc.ite (fun _ => Loc.fail _) fun _ => Loc.ofOption _ _ fun _ _ => trivial
+  | membersRole role =>
+    simp only
+    refine Loc.bind (Q := fun (m : Id) => m.reg = r) (Loc.ofOption _ _ fun a ha => hpo.2.2 a ha) fun mid hmid => ?_
+    refine Loc.bind (Loc.rdPop hmid) fun mo hmo => ?_
+    refine Loc.ite (fun _ => Loc.fail _) fun _ => ?_
+    refine Loc.bind (hrec _ _ _ hmo.1) fun a _ => ?_
+    refine Loc.ite (fun _ => Loc.fail _) fun _ => ?_
+    refine Loc.bind (Loc.rdSim hmo.1) fun so hso => ?_
+    refine Loc.bind (Q := fun (g : Id) => g.reg = r) (Loc.ofOption _ _ fun a ha => hso.2.1 _ (alGet_mem ha)) fun gid hgid => ?_
+    refine Loc.bind (Loc.rdPop hgid) fun go _ => ?_
+    exact Loc.ite (fun _ => Loc.fail _) fun _ => Loc.pure _ trivial
+  | nbPersons role =>
+    simp only
+    exact Loc.ite (fun _ => Loc.fail _) fun _ => Loc.pure _ trivial
+  | hasRole g role =>
+    simp only
+    refine Loc.bind (Loc.rdSim hpo.1) fun so hso => ?_
+    refine Loc.bind (Q := fun (g : Id) => g.reg = r) (Loc.ofOption _ _ fun a ha => hso.2.1 _ (alGet_mem ha)) fun gid hgid => ?_
+    exact Loc.bind (Loc.rdPop hgid) fun go _ => Loc.pure _ trivial
 
 theorem Loc.evalTerms {r : Nat} (sys : Sys) {rec : Id → Var → Period → HM Vec} (hrec : RecLoc r rec)
     {pid : Id} (hp : pid.reg = r) (ent : Nat) (p : Period) (ts : List Term) (acc : Vec) :
